@@ -104,6 +104,12 @@ add("C19", "vp_sig",
     "Trusted: f64 exp for the reference gain (1e-5 relative allowance for the f32 powf), a second instance of the detector stage to observe d.",
     "DESIGN.md §4 C19, §5 F8")
 
+add("C18", "vp_sig",
+    "proptest + depth/length grid with round-trip (ratio 1), metamorphic (superposition, scaling, reset) and range oracles",
+    "Depths 1..=16 (thorough 64), histories of 0..6 x depth frames incl. the priming phase, fractions {0, k/1024, random, 1-2^-53}, formats f64, f32, [f64;2], i16, i32: (i) Converter at ratio exactly 1 reproduces the source delayed by exactly depth frames within 1e-12 peak (+1 LSB), for every depth and a grid of history lengths around depth; (ii) interp(A+B) ~ interp(A)+interp(B) and interp(2^k A) ~ 2^k interp(A) within derived rounding bounds; (iii) outputs finite and bounded, also through the converter at random ratios; (iv) constant input on a primed buffer with depth >= 4 within 1 % on a grid of 64 fractions; (v) after reset() silent and bit-identical to a fresh interpolator on any subsequent history.",
+    "Trusted: the stated tolerances; integer inputs are limited to 0.15 full scale (overflow on full-scale integer input is outside the statement).",
+    "DESIGN.md §4 C18")
+
 PENDING_REASON = "check not yet built in this round (design in DESIGN.md §4); nothing is claimed for it until its check is registered"
 
 def main():
